@@ -37,7 +37,7 @@ func (c *c07) Meta() engine.Meta {
 		Technique: "exhaustive enumeration of restart sets over block boundaries x deviation-bounded histories on the real application, twin oracle against the continuously running replica",
 		Rule: "histories: the dense 8-block history (validator membership change, limiter-sensitive staking, proposal by a validator, governance change of gasPrice, withdrawals, contract storage writes) in genesis variants g3 and g4L (live stake limiter), plus every single deviation from a core menu (staking / unstaking / proposal / vote / withdraw / contract call appended to any block); plus a variant whose passing proposal changes maxValidatorCnt and minValidatorStake themselves (10 blocks), plus the small-stake history (power-1 stakes, evidence with forfeiture, repeated evidence, jailing; 9 blocks), plus a history in which TWO passed proposals are applied in the same block and the following blocks depend on every changed parameter (gas price, minimum gas, slash ratio; 10 blocks, restart sets of size <= 2), plus a padded 12-block variant that crosses version 10 where the reward hash is re-folded. " +
 			"For each history every subset of the block boundaries 1..7 of size <= 2 (quick) / every subset (thorough, default history) is a restart set; a restart = copy of the data directory (kill -9 model), new RigoApp, Info. " +
-			"Oracle: Info reports the continuous replica's height and app hash; every later DeliverTx / EndBlock / Commit response equals the continuous replica's. " +
+			"Oracle: Info reports the continuous replica's height and app hash; every later DeliverTx / EndBlock / Commit response equals the continuous replica's; the complete final state (committed ledgers, and the in-memory parameters in force and validator set last reported) equals the continuous replica's. " +
 			"distinct_nontrivial = executions with at least one restart directly after a block that changed stakes, validators or parameters.",
 		Assumptions: []string{"restart = process kill after Commit returned (completed writes survive); graceful Stop() leaves three stores open in-process and cannot be reopened in place, so the kill model is the one explored"},
 	}
@@ -259,6 +259,24 @@ func (c *c07) RunDesc(desc json.RawMessage) engine.Result {
 		res.Violations = append(res.Violations, engine.Violation{Property: "C07", Kind: kind, Site: fmt.Sprintf("%s+%d", callKind(x), after),
 			Detail: fmt.Sprintf("restarts after heights %v; first differing consensus response (call #%d):\n restarted : %s\n continuous: %s\n history deviations: %v", cs.Restarts, i, x, y, descr), Case: desc})
 		return res
+	}
+	// the complete state committed by the last block (the reward ledger enters the app hash only at every 10th height)
+	if !a.Chain.Dead && len(ref.States) == len(h.Blocks) {
+		if st, err := a.Chain.DumpState(0, append(append([][]byte{}, a.Chain.Deployed...), a.Chain.Watch...)); err == nil {
+			want := ref.States[len(ref.States)-1]
+			if st.JSON() != want.JSON() {
+				d := sim.DiffStates(st, want)
+				comp := "state"
+				if len(d) > 0 {
+					comp = strings.SplitN(strings.SplitN(strings.TrimPrefix(d[0], "/"), "/", 2)[0], ":", 2)[0]
+				}
+				res.Outcome = "state-differs"
+				res.Violations = append(res.Violations, engine.Violation{Property: "C07", Kind: "state-differs-after-restart", Site: comp,
+					Detail: fmt.Sprintf("restarts after heights %v; all consensus responses equal, but the final state (restarted != continuous) differs: %v\n history deviations: %v", cs.Restarts, tailOf(d, 6), descr), Case: desc})
+				return res
+			}
+			res.Count("final_states_compared", 1)
+		}
 	}
 	res.Outcome = "equal"
 	if len(cs.Devs) == 0 && len(cs.Restarts) == 2 && cs.Restarts[0] == 3 {
